@@ -1,4 +1,4 @@
-import UF.Compose5.AppendX
+import UF.Compose5.DnsKnown
 import UF.Props.C07Text
 /-
   C07 AT TEXT LEVEL, THE REMAINING CASES (group P1; second adversarial review, finding F7).
@@ -29,6 +29,8 @@ import UF.Props.C07Text
   * `c07_text_add_value_iff` — ONE MORE VALUE in a list-valued modifier, at any position in the value list, the
     modifier at any position in the text: tie — except a first permitted `$domain` value added to an effective
     `$domain` that had only excluded values (generic → specific: strictly higher).  Never lower.
+  * `c07_text_dnstype_any` — `c07_text_dnstype` of Props/C07Text.lean without its hypothesis `hknown` (a text that
+    parses has only known `$dnstype` names).
   Together with `c07_text_*` of Props/C07Text.lean ("not yet carried ⇒ strictly higher") every appended modifier
   of the grammar is characterised.  Decided examples for each boundary, through the complete parser model, at
   the end.  Only property theorems and examples here; helper lemmas live in UF/Compose5.
@@ -307,9 +309,8 @@ theorem c07_text_domain_again_iff (px : E.ParseExt) (wl : Bool) (pat : Bytes) (x
     rw [Bool.and_comm]
 
 /-- `$dnstype=` / `$ctag=` / `$client=` / `$denyallow=` written AGAIN on a rule that already counts that
-    modifier: the later list replaces the earlier one and the count is unchanged — TIE.  (`hknown`: some
-    `$dnstype` name of the new list is a known record type, as in `c07_text_dnstype`; for the other kinds the
-    hypothesis is vacuous.) -/
+    modifier: the later list replaces the earlier one and the count is unchanged — TIE.  (No hypothesis about
+    the `$dnstype` names: a text that parses has only known ones, `parseX_dnstype_known`.) -/
 theorem c07_text_list_again_tie (px : E.ParseExt) (wl : Bool) (pat : Bytes) (xs : List XMod) (k : ListKind)
     (vs : List (Bool × Bytes)) (id id' : Int)
     (r r' : NetRule) (hp : patOK pat = true) (hm : ∀ x ∈ xs ++ [.base (k.mod vs)], x.valsOK = true)
@@ -321,8 +322,7 @@ theorem c07_text_list_again_tie (px : E.ParseExt) (wl : Bool) (pat : Bytes) (xs 
       | .denyallow => r.denyallow ≠ []
       | .dnstype => r.permDns ≠ [] ∨ r.restrDns ≠ []
       | .ctag => r.permTags ≠ [] ∨ r.restrTags ≠ []
-      | .client => Clients.len r.permClients ≠ 0 ∨ Clients.len r.restrClients ≠ 0)
-    (hknown : k = .dnstype → r'.permDns ≠ [] ∨ r'.restrDns ≠ []) :
+      | .client => Clients.len r.permClients ≠ 0 ∨ Clients.len r.restrClients ≠ 0) :
     isHigherPriority r' r = false ∧ isHigherPriority r r' = false := by
   obtain ⟨R, _, e, e'⟩ := append_x hp hm h h'
   have hvals := hm (.base (k.mod vs)) (List.mem_append_right _ List.mem_cons_self)
@@ -344,12 +344,8 @@ theorem c07_text_list_again_tie (px : E.ParseExt) (wl : Bool) (pat : Bytes) (xs 
       have a := congrArg NetRule.permDns e
       have b := congrArg NetRule.restrDns e
       rw [← a, ← b]; exact hhas
-    have h2 : (posVals vs).filterMap dnsTypeNumber ≠ [] ∨ (negVals vs).filterMap dnsTypeNumber ≠ [] := by
-      have a : r'.permDns = (posVals vs).filterMap dnsTypeNumber := by
-        have := congrArg NetRule.permDns e2; exact this
-      have b : r'.restrDns = (negVals vs).filterMap dnsTypeNumber := by
-        have := congrArg NetRule.restrDns e2; exact this
-      rw [← a, ← b]; exact hknown rfl
+    have h2 : (posVals vs).filterMap dnsTypeNumber ≠ [] ∨ (negVals vs).filterMap dnsTypeNumber ≠ [] :=
+      ne_of_flag2 (dns_flag_of_known vs hne (parseX_dnstype_known (post := []) hp hm h'))
     rw [e2]
     exact tie_of_pkey (pkey_dns _ _ _ h1 h2)
   | ctag =>
@@ -389,21 +385,53 @@ theorem c07_text_list_again_tie (px : E.ParseExt) (wl : Bool) (pat : Bytes) (xs 
     rw [e2]
     exact tie_of_pkey (pkey_clients _ _ _ h1 h2)
 
+/-- `c07_text_dnstype` (Props/C07Text.lean) WITHOUT its hypothesis `hknown`: `,dnstype=…` on a rule without
+    `$dnstype` is strictly higher — a text that parses has only known record-type names, so the modifier is
+    always counted. -/
+theorem c07_text_dnstype_any (px : E.ParseExt) (wl : Bool) (pat : Bytes) (ms : List Mod) (vs : List (Bool × Bytes))
+    (id id' : Int) (r r' : NetRule) (hp : patOK pat = true) (hm : ∀ x ∈ ms ++ [.dnstype vs], x.valsOK = true)
+    (h : E.parseNetRule px (render wl pat ms) id = .ok r)
+    (h' : E.parseNetRule px (render wl pat (ms ++ [.dnstype vs])) id' = .ok r')
+    (hno : r.permDns = [] ∧ r.restrDns = []) : isHigherPriority r' r = true := by
+  refine c07_text_dnstype px wl pat ms vs id id' r r' hp hm h h' hno ?_
+  have hx : renderX wl pat (ms.map .base ++ .base (.dnstype vs) :: []) = render wl pat (ms ++ [.dnstype vs]) := by
+    rw [← renderX_base]; simp
+  have h'' : E.parseNetRule px (renderX wl pat (ms.map .base ++ .base (.dnstype vs) :: [])) id' = .ok r' := by
+    rw [hx]; exact h'
+  have hmX : ∀ y ∈ ms.map XMod.base ++ .base (.dnstype vs) :: [], y.valsOK = true := by
+    intro y hy
+    rcases List.mem_append.1 hy with hy | hy
+    · obtain ⟨m, hm', rfl⟩ := List.mem_map.1 hy
+      exact hm m (List.mem_append_left _ hm')
+    · rcases List.mem_cons.1 hy with rfl | hy
+      · exact hm _ (List.mem_append_right _ List.mem_cons_self)
+      · cases hy
+  have hne : vs ≠ [] := by
+    have := hm (.dnstype vs) (List.mem_append_right _ List.mem_cons_self)
+    simp only [Mod.valsOK, Bool.and_eq_true, Bool.not_eq_true', List.isEmpty_eq_false_iff] at this
+    exact this.1
+  have flag := dns_flag_of_known vs hne (parseX_dnstype_known hp hmX h'')
+  obtain ⟨R, _, _, e'⟩ := append_mod' hp hm h h'
+  have e2 := e'.trans (overrideDoc_dns R ((posVals vs).filterMap dnsTypeNumber) ((negVals vs).filterMap dnsTypeNumber))
+  have a : r'.permDns = (posVals vs).filterMap dnsTypeNumber := by
+    have := congrArg NetRule.permDns e2; exact this
+  have b : r'.restrDns = (negVals vs).filterMap dnsTypeNumber := by
+    have := congrArg NetRule.restrDns e2; exact this
+  rw [a, b]
+  exact ne_of_flag2 flag
+
 /-- ONE MORE VALUE in a list-valued modifier.  The modifier `k.mod (a ++ b)` stands anywhere in the text (between
     `pre` and `post`); the new text has the value `v` inserted anywhere in its list (`a ++ v :: b`).  The two
     rules TIE — with one exception: a first PERMITTED `$domain` value added to a `$domain` modifier that had only
     excluded values and is not overwritten by a later `$domain` turns a generic rule into a specific one, which
-    is strictly higher.  Adding a value never lowers the priority.  (`hdns`: some `$dnstype` name of the shorter
-    list is a known record type; vacuous for the other kinds.) -/
+    is strictly higher.  Adding a value never lowers the priority. -/
 theorem c07_text_add_value_iff (px : E.ParseExt) (wl : Bool) (pat : Bytes) (pre post : List XMod) (k : ListKind)
     (a b : List (Bool × Bytes)) (v : Bool × Bytes) (id id' : Int)
     (r r' : NetRule) (hp : patOK pat = true)
     (hm : ∀ x ∈ pre ++ .base (k.mod (a ++ b)) :: post, x.valsOK = true)
     (hm' : ∀ x ∈ pre ++ .base (k.mod (a ++ v :: b)) :: post, x.valsOK = true)
     (h : E.parseNetRule px (renderX wl pat (pre ++ .base (k.mod (a ++ b)) :: post)) id = .ok r)
-    (h' : E.parseNetRule px (renderX wl pat (pre ++ .base (k.mod (a ++ v :: b)) :: post)) id' = .ok r')
-    (hdns : k = .dnstype → (((posVals (a ++ b)).filterMap dnsTypeNumber).length != 0 ||
-      ((negVals (a ++ b)).filterMap dnsTypeNumber).length != 0) = true) :
+    (h' : E.parseNetRule px (renderX wl pat (pre ++ .base (k.mod (a ++ v :: b)) :: post)) id' = .ok r') :
     isHigherPriority r' r =
       (decide (k = .domain) && (posVals (a ++ b)).isEmpty && !v.1 && !post.any XMod.isDomain) ∧
     isHigherPriority r r' = false := by
@@ -411,6 +439,11 @@ theorem c07_text_add_value_iff (px : E.ParseExt) (wl : Bool) (pat : Bytes) (pre 
   have key' := c07_text_key px wl wl pat pat _ _ id' id r' r hp hp hm' hm h' h
   have hne : a ++ b ≠ [] :=
     ListKind.mod_ne (hm (.base (k.mod (a ++ b))) (List.mem_append_right _ List.mem_cons_self))
+  have hdns : k = .dnstype → (((posVals (a ++ b)).filterMap dnsTypeNumber).length != 0 ||
+      ((negVals (a ++ b)).filterMap dnsTypeNumber).length != 0) = true := by
+    intro hk
+    subst hk
+    exact dns_flag_of_known _ hne (parseX_dnstype_known hp hm h)
   have hS := stepP_add_value (pre.foldl stepP {}) k a b v hne hdns
   have tk : ∀ x, textKey wl (pre ++ x :: post) = keyP wl (post.foldl stepP (stepP (pre.foldl stepP {}) x)) := by
     intro x; unfold textKey; rw [List.foldl_append, List.foldl_cons]
